@@ -17,6 +17,14 @@ def run(ctx):
             for mode in ("plain", "fixed", "cxof"):
                 for pat in ((0, 3) if main else (3,)):
                     jobs.append((exe, [a, mode, pat, 1 if (ctx.thorough and main) else 0], be))
+    # the sources test __SIZEOF_SIZE_T__ (not predefined by every compiler) around the declared-length clamp: the same checks with the macro undefined
+    for be, cc in ((("asm", "gcc"), ("c32", "clang"), ("generic", "gcc")) if ctx.thorough else (("asm", "gcc"), ("c32", "clang"))):
+        lib = build.build_lib(be, cc=cc, extra=["-U__SIZEOF_SIZE_T__"])
+        ctx.configs.append(lib["desc"] + " -U__SIZEOF_SIZE_T__")
+        exe = build.build_prog("c03", ["harness/c03.c", "harness/cpp_shim.cpp", "ref/ref.c"], lib)
+        for a in (0, 1):
+            for mode in ("fixed", "cxof"):
+                jobs.append((exe, [a, mode, 3, 0], "%s-%s-no-sizeof-macro" % (be, cc)))
     common.parallel(lambda j: common.run_harness(ctx, j[0], j[1], label=j[2]), jobs)
     common.align_jobs(ctx, jobs, lambda j: j[2] in ("asm", "c64") and j[1][2] == 3)
     common.mid_lengths(ctx, ["hash:0", "hash:1", "xof-in:0", "xof-in:1", "xof-out:0", "xof-out:1"], ("asm", "c64", "c32", "dxor", "generic") if ctx.thorough else ("asm", "c32"))
